@@ -56,6 +56,8 @@ CORPORA = {
                      family="httpbody", trace="HttpBodyTrace.tla", tracecfg="HttpBodyTrace.cfg"),
     "restfield": dict(gen="MCRestField.tla", cfg={"quick": "restfield.cfg", "thorough": "restfield.cfg"},
                       family="restfield", trace="RestFieldTrace.tla", tracecfg="RestFieldTrace.cfg"),
+    # E5: client-side exchanges recorded while the repository's own tests run, judged by SuiteTrace.tla
+    "suite": dict(record_suite=True, family="suite", trace="SuiteTrace.tla", tracecfg="SuiteTrace.cfg"),
     "stream_headers": dict(gen="MCStream.tla", cfg={"quick": "stream_headers_quick.cfg", "thorough": "stream_headers_thorough.cfg"},
                            family="stream", trace="StreamTrace.tla", tracecfg="StreamTrace.cfg"),
 }
@@ -66,9 +68,9 @@ CORPORA = {
 PROPS = {
     "C01": dict(corpora=["stream_matrix", "stream_faults", "restbind", "httpbody", "restfield"], prefix="C01."),
     "C02": dict(corpora=["stream_matrix", "stream_headers"], prefix="C02."),
-    "C03": dict(corpora=["stream_matrix", "stream_errors", "stream_faults", "stream_hostile", "httpbody"], prefix="C03."),
+    "C03": dict(corpora=["stream_matrix", "stream_errors", "stream_faults", "stream_hostile", "httpbody", "suite"], prefix="C03."),
     "C04": dict(corpora=["stream_errors", "stream_hostile"], prefix="C04."),
-    "C05": dict(corpora=["stream_headers", "stream_errors"], prefix="C05."),
+    "C05": dict(corpora=["stream_headers", "stream_errors", "suite"], prefix="C05."),
     "C06": dict(corpora=["router"], prefix="C06."),
     "C07": dict(corpora=["restbind", "httpbody", "restfield"], prefix="C07."),
     "C08": dict(corpora=["stream_chunks"], prefix="C08.",
@@ -142,8 +144,37 @@ def nontrivial(o):
     return d is None or not d.get("same", False)
 
 
+def record_suite(work, scn_file):
+    """E5: run the repository's own test suite with the recording hook installed (tag verif, overlay adds
+    suite/zz_verif_record_test.go to package vanguard); every ServeHTTP call becomes one input line."""
+    raw = os.path.join(work, "suite.raw.ndjson")
+    ov = os.path.join(work, "suite.overlay.json")
+    with open(ov, "w") as f:
+        json.dump({"Replace": {os.path.join(vlib.REPO, "zz_verif_record_test.go"): os.path.join(vlib.VERIF, "suite", "zz_verif_record_test.go")}}, f)
+    env = vlib.go_env()
+    env["VERIF_SUITE_TRACE"] = raw
+    import subprocess
+    try:
+        p = subprocess.run(["go", "test", "-tags", "verif", "-overlay", ov, "-vet=off", "-count=1", "."], cwd=vlib.REPO, env=env,
+                           capture_output=True, text=True, timeout=1500)
+    except subprocess.TimeoutExpired:
+        raise Inconclusive("the repository's test suite timed out under the recorder")
+    if p.returncode != 0 or not os.path.exists(raw):
+        raise Inconclusive("the repository's test suite did not pass under the recorder:\n" + (p.stdout + p.stderr)[-2000:])
+    n = 0
+    with open(raw) as f, open(scn_file, "w") as out:
+        for line in f:
+            o = json.loads(line)
+            n += 1
+            o["sid"], o["fam"] = "suite-%d" % n, "suite"
+            out.write(json.dumps(o, separators=(",", ":")) + "\n")
+    return n
+
+
 def run_corpus(name, tier, seed, work, binary):
     c = CORPORA[name]
+    if c.get("record_suite"):
+        return run_suite_corpus(name, c, seed, work, binary)
     cfg = c["cfg"][tier]
     log("[%s] E1: tlc %s %s" % (name, c["gen"], cfg))
     scn_file = os.path.join(work, name + ".scn.ndjson")
@@ -242,6 +273,29 @@ def run_corpus(name, tier, seed, work, binary):
                     drift[f] += 1
     log("[%s] E4 done in %.1fs (%d shard(s))" % (name, time.time() - t2, len(touts)))
     return dict(name=name, gen=g, nscn=nscn[0], scn_file=scn_file, trace_file=trace_file, bad=bad, nlines=ntrace, drift=dict(drift))
+
+
+def run_suite_corpus(name, c, seed, work, binary):
+    scn_file = os.path.join(work, name + ".scn.ndjson")
+    trace_file = os.path.join(work, name + ".trace.ndjson")
+    log("[%s] E5: recording the repository's test suite" % name)
+    t0 = time.time()
+    n = record_suite(work, scn_file)
+    if n < 1000:
+        raise Inconclusive("the recorder saw only %d ServeHTTP calls" % n)
+    vlib.run_harness(binary, c["family"], scn_file, trace_file, seed)
+    t = vlib.run_tlc(work, c["trace"], c["tracecfg"], env={"VERIF_TRACE": trace_file}, workers=1, timeout=3600)
+    done = [o for o in t["out"] if "done" in o]
+    if not t["ok"] or not done or done[0]["done"] != n:
+        raise Inconclusive("E4 did not complete for %s: %s\n%s" % (name, t["errors"][:3], t["raw"][-2000:]))
+    if done[0].get("judged", 0) < n // 2:
+        raise Inconclusive("only %d of %d recorded exchanges could be judged" % (done[0].get("judged", 0), n))
+    if [o for o in t["out"] if "harness" in o]:
+        raise Inconclusive("harness reported errors on suite lines")
+    bad = {o["bad"]: o for o in t["out"] if "bad" in o}
+    log("[%s] E5 done in %.1fs: %d exchanges, %d judged in-protocol" % (name, time.time() - t0, n, done[0].get("judged", 0)))
+    g = dict(distinct=0, generated=0, wall=0.0)
+    return dict(name=name, gen=g, nscn=n, scn_file=scn_file, trace_file=trace_file, bad=bad, nlines=n, drift={})
 
 
 def scenario_by_sid(scn_file, sid):
